@@ -613,4 +613,74 @@ example :
     r.1.trace.map (·.tag) = ["s0", "s1", "h1"] ∧ r.2 = .ok ∧ (C07.runErrorsOf r.1).length = 1 := by
   decide +kernel
 
+
+/-! ## a failure handler that hands over (jump / call) and fails again -/
+
+/-- **A jump inside the failure group.** When the failure group's steps end with a jump, the jumped-to
+    groups are run from there (with the jump's own success / failure groups); whatever ERROR they end
+    with - at any depth of further jumps, calls and handlers, since the hypothesis is about the whole
+    nested `run_step_groups` - the failure group has ended normally as far as its caller is concerned. -/
+theorem handler_jump_error_is_dropped (fuel : Nat) (prog : Program) (pipe name : String) (ss : List StepDef)
+    (s s1 s2 : St) (c : CofCfg) (e2 : ExcV) (h2 : Bool) (hn : name ≠ "")
+    (hs : getPipelineSteps prog pipe name = .ok ss)
+    (hj : runSteps fuel prog pipe ss s = (s1, .jump c))
+    (ht : runGroups fuel prog pipe c.groups c.success c.failure s1 = (s2, .err e2 h2)) :
+    runFailureGroup (fuel + 2) prog pipe (some name) s = (s2, .ok) := by
+  rw [runFailureGroup_eq (fuel + 1) prog pipe name s hn, runStepGroup_eq' fuel prog pipe name true s ss hs hn, hj]
+  simp only [ht]
+
+/-- **… so the caller still receives the ORIGINAL error**: the main phase failed with `e`; the failure
+    group jumped to other groups in which a second error `e2` was raised: `run_step_groups` ends with `e`
+    (the same exception object, same `handled` flag), in the state the jumped-to groups left. -/
+theorem runGroups_err_handler_jumps_and_fails (fuel : Nat) (prog : Program) (pipe : String) (g : String) (gs : List String)
+    (success : Option String) (name : String) (ss : List StepDef) (s s1 s2 s3 : St) (e : ExcV) (h : Bool)
+    (c : CofCfg) (e2 : ExcV) (h2 : Bool) (hn : name ≠ "")
+    (hm : mainPhase (fuel + 2) prog pipe (g :: gs) success s = (s1, .err e h))
+    (hs : getPipelineSteps prog pipe name = .ok ss)
+    (hj : runSteps fuel prog pipe ss s1 = (s2, .jump c))
+    (ht : runGroups fuel prog pipe c.groups c.success c.failure s2 = (s3, .err e2 h2)) :
+    runGroups (fuel + 3) prog pipe (g :: gs) success (some name) s = (s3, .err e h) :=
+  runGroups_err_handler_done (fuel + 2) prog pipe g gs success (some name) s s1 s3 e h hm
+    (by simp [hasFailureGroup, hn])
+    (handler_jump_error_is_dropped fuel prog pipe name ss s1 s2 s3 c e2 h2 hn hs hj ht)
+
+/-- **A step of the failure group that fails** - in particular a call / switch step whose called groups
+    failed (the error comes back to the step, `handled`), at any position: the steps before it ran, the
+    failure group has ended normally as far as its caller is concerned. -/
+theorem handler_step_error_is_dropped (fuel : Nat) (prog : Program) (pipe name : String) (ss : List StepDef)
+    (s s1 : St) (e2 : ExcV) (h2 : Bool) (hn : name ≠ "")
+    (hs : getPipelineSteps prog pipe name = .ok ss)
+    (hj : runSteps fuel prog pipe ss s = (s1, .err e2 h2)) :
+    runFailureGroup (fuel + 2) prog pipe (some name) s = (s1, .ok) := by
+  rw [runFailureGroup_eq (fuel + 1) prog pipe name s hn, runStepGroup_eq' fuel prog pipe name true s ss hs hn, hj]
+
+/-- **Whatever the failure group does**: if `run_step_groups` ends with an error at all, it is the main
+    phase's - never one that was raised while the failure group (or anything it jumped to or called)
+    was running: the result of `run_step_groups`, when an error, is the result of its main phase. -/
+theorem handler_never_replaces_error (fuel : Nat) (prog : Program) (pipe : String) (g : String) (gs : List String)
+    (success failure : Option String) (s s' : St) (e : ExcV) (h : Bool)
+    (hr : runGroups (fuel + 1) prog pipe (g :: gs) success failure s = (s', .err e h)) :
+    (mainPhase fuel prog pipe (g :: gs) success s).2 = .err e h := by
+  obtain ⟨s1, hm, _⟩ := runGroups_err_is_original fuel prog pipe g gs success failure s s' e h hr
+  rw [hm]
+
+/-- the handler `jumper` jumps to `t`, whose second step raises `E2` -/
+def handoverProg : Program := ⟨[{ name := "main", groups := [
+  ("steps", .steps [probe "a", failing "f" "E1", probe "b"]),
+  ("jumper", .steps [probe "h", { name := some "pypyr.steps.jump", inArgs := some [("jump", .str "t")] }, probe "nh"]),
+  ("caller", .steps [probe "h", { name := some "pypyr.steps.call", inArgs := some [("call", .dict [(.str "groups", .tuple [.str "t"]), (.str "failure", .str "tf")])] }, probe "nh"]),
+  ("t", .steps [probe "t1", failing "t2" "E2", probe "t3"]),
+  ("tf", .steps [probe "tf1", { name := some "pypyr.steps.jump", inArgs := some [("jump", .str "t")] }])] }]⟩
+
+/-- hypotheses satisfiable, and the conclusion on concrete runs: the failure handler jumps (calls, with a
+    failure group that jumps again) to a group that raises `E2` (`E2` twice) - the caller receives `E1`,
+    exception object 0 -/
+example :
+    (let r := runRoot 50 handoverProg { name := "main", groups := some ["steps"], failure := some "jumper" } {}
+     r.2 = .err ⟨0, "E1", "boom f"⟩ false ∧ r.1.trace.map (·.tag) = ["a", "f", "h", "t1", "t2"] ∧ r.1.nextExc = 2) ∧
+    (let r := runRoot 50 handoverProg { name := "main", groups := some ["steps"], failure := some "caller" } {}
+     r.2 = .err ⟨0, "E1", "boom f"⟩ false ∧
+     r.1.trace.map (·.tag) = ["a", "f", "h", "t1", "t2", "tf1", "t1", "t2"] ∧ r.1.nextExc = 3) := by
+  decide +kernel
+
 end Pypyr.C01
